@@ -82,6 +82,10 @@ def register(reg: Registry) -> None:
                 "all_int(lambda j: implies(len(self._labels_before_op) <= j and j < old(len(self._labels_before_op)), old(self._labels_before_op[j]).id in self.label_offsets and self.label_offsets[old(self._labels_before_op[j]).id] == self._total_number_collected_ops))",
                 "all_val(lambda k: implies(old(k in self.label_offsets) and not any_int(lambda j: 0 <= j and j < old(len(self._labels_before_op)) and old(self._labels_before_op[j]).id == k), k in self.label_offsets and self.label_offsets[k] == old(self.label_offsets[k])))",
                 "unchanged_list(old(self._collected_params))",
+                # popping the queued labels touches neither the routine being collected nor the fresh parameter list
+                "len(self._collected_ops) == at_loop_entry(len(self._collected_ops))",
+                "all_int(lambda j: implies(0 <= j and j < len(self._collected_ops), self._collected_ops[j] is at_loop_entry(self._collected_ops[j])))",
+                "fresh(self._collected_params) and len(self._collected_params) == 0",
             ], decreases="len(self._labels_before_op)"),
             1: dict(invariants=[
                 # registering position marks only touches the source map builder's list
@@ -90,6 +94,7 @@ def register(reg: Registry) -> None:
                 "len(self._labels_before_op) == 0",
                 "fresh(self._collected_params) and len(self._collected_params) == 0",
                 "unchanged_list(collected_params)",
+                "all_int(lambda j: implies(0 <= j and j < old(len(self._labels_before_op)), old(self._labels_before_op[j]).id in self.label_offsets and self.label_offsets[old(self._labels_before_op[j]).id] == self._total_number_collected_ops))",
             ]),
         },
         canaries=[f"{NEWOP}.offset == old(self._total_number_collected_ops)"], properties=["C07", "C03"])
